@@ -7,6 +7,7 @@
  *   dheap <windowLogMax> <hex-frame> <in-chunks> <out-chunks>   heap DStream with a counting allocator: verdict + peak live bytes + ZSTD_sizeof_DCtx
  * All static memory comes from an exact-size malloc (ASan redzones right at both ends). */
 #include "zvh_common.h"
+#include "zstd_decompress_internal.h"   /* to read zds->inBuffSize / outBuffSize at frame ends (C14 buffer-sizing tie) */
 #include <signal.h>
 #include <unistd.h>
 #define ZDICT_STATIC_LINKING_ONLY
@@ -94,7 +95,7 @@ int main(void) {
         } else if (!strcmp(op, "dstatic") || !strcmp(op, "dheap")) {
             int isStatic = !strcmp(op, "dstatic"); size_t W = (size_t)strtoull(strtok(NULL, " "), NULL, 10); size_t n; unsigned char* in = zv_unhex(strtok(NULL, " "), &n);
             size_t ic[64], oc[64]; size_t ni = parse_csv(strtok(NULL, " "), ic, 64), no = parse_csv(strtok(NULL, " "), oc, 64);
-            size_t cap = 1 << 22, consumed = 0, produced = 0, r = 1, ii = 0, oi = 0; unsigned char* out = (unsigned char*)malloc(cap); ZSTD_DCtx* d; void* mem = NULL; size_t need = 0, szof = 0; int idle = 0, calls = 0;
+            char bufs[400]; size_t bl = 0; size_t cap = 1 << 22, consumed = 0, produced = 0, r = 1, ii = 0, oi = 0; unsigned char* out = (unsigned char*)malloc(cap); ZSTD_DCtx* d; void* mem = NULL; size_t need = 0, szof = 0; int idle = 0, calls = 0;
             cnt_reset();
             if (isStatic) { need = ZSTD_estimateDStreamSize(W); mem = malloc(need + 8); d = ZSTD_initStaticDStream((void*)(((size_t)mem + 7) & ~(size_t)7), need); if (d) ZSTD_DCtx_setMaxWindowSize(d, W); }
             else { d = ZSTD_createDCtx_advanced(g_cmem); ZSTD_DCtx_setParameter(d, ZSTD_d_windowLogMax, (int)W); }
@@ -103,9 +104,11 @@ int main(void) {
                 if (isz > n - consumed) isz = n - consumed; if (osz > cap - produced) osz = cap - produced;
                 ib.src = in + consumed; ib.size = isz; ib.pos = 0; ob.dst = out + produced; ob.size = osz; ob.pos = 0;
                 r = ZSTD_decompressStream(d, &ob, &ib); if (ZSTD_isError(r)) break; consumed += ib.pos; produced += ob.pos;
+                if (r == 0 && (ib.pos || ob.pos) && bl < sizeof bufs - 40) bl += (size_t)snprintf(bufs + bl, sizeof bufs - bl, "%s%zu:%zu", bl ? "," : "", d->inBuffSize, d->outBuffSize);   /* a frame just ended */
                 if (ib.pos == 0 && ob.pos == 0) { if (consumed == n) { if (++idle >= 2) break; } else if (++idle > 40) break; } else idle = 0; }
             szof = ZSTD_sizeof_DCtx(d);
             if (ZSTD_isError(r)) printf("err %s", zv_errclass(r)); else printf("ok %zu %016llx", produced, (unsigned long long)XXH64(out, produced, 0));
+            bufs[bl] = 0; printf(" bufs=%s", bl ? bufs : "-");
             if (isStatic) printf(" need=%zu\n", need); else printf(" peak=%zu sizeof=%zu live=%zu est=%zu\n", g_peak, szof, g_live, ZSTD_estimateDStreamSize((size_t)1 << W));
             if (!isStatic) { ZSTD_freeDCtx(d); if (cnt_leaks()) printf("LEAK\n"); cnt_release_leaks(); }
             free(in); free(out); free(mem);
